@@ -41,8 +41,8 @@ theorem findPeer_updatePeer_self {ps : List Peer} {c : Nat} {g : Peer → Peer} 
 
 /-! ## change -/
 
-theorem changeState_ok {cfg : Config} {x : Ctx} (inv : Inv cfg x.st) {p : Peer} (hp : p ∈ x.st.peers)
-    (req : Json) : HOK cfg x req (changeState x p req) := by
+theorem changeState_ok {cfg : Config} {pc : Nat} {x : Ctx} (inv : Inv cfg x.st) {p : Peer} (hp : p ∈ x.st.peers)
+    (req : Json) : HOK cfg x req pc (changeState x p req) := by
   unfold changeState
   split
   · next r hr => exact HOK.quiet inv (Quiet.refl x) (getParamsAndPath_err hr)
@@ -90,8 +90,8 @@ theorem changeState_ok {cfg : Config} {x : Ctx} (inv : Inv cfg x.st) {p : Peer} 
 
 /-! ## remove -/
 
-theorem removeElementReq_ok {cfg : Config} {x : Ctx} (inv : Inv cfg x.st) {p : Peer} (hp : p ∈ x.st.peers)
-    (req : Json) : HOK cfg x req (removeElementReq x p req) := by
+theorem removeElementReq_ok {cfg : Config} {pc : Nat} {x : Ctx} (inv : Inv cfg x.st) {p : Peer} (hp : p ∈ x.st.peers)
+    (req : Json) : HOK cfg x req pc (removeElementReq x p req) := by
   unfold removeElementReq
   split
   · next r hr => exact HOK.quiet inv (Quiet.refl x) (getParamsAndPath_err hr)
@@ -164,10 +164,10 @@ theorem addNotifs_congr {cfg : Config} {ps : List Peer} {e e' : Element}
   unfold addNotifs addNotif
   simp only [hvis, hp, hv]
 
-theorem addCore_ok {cfg : Config} {x : Ctx} (inv : Inv cfg x.st) {p : Peer} (hp : p ∈ x.st.peers)
+theorem addCore_ok {cfg : Config} {pc : Nat} {x : Ctx} (inv : Inv cfg x.st) {p : Peer} (hp : p ∈ x.st.peers)
     (req : Json) (path : Bytes) (e : Element) (hfresh : lookupIndex x.st.index path = none)
     (hpath : e.path = path) (howner : e.owner = p.conn) (hkeys : keys e.fetchers = []) :
-    HOK cfg x req (addCore cfg x p req path e) := by
+    HOK cfg x req pc (addCore cfg x p req path e) := by
   obtain ⟨h1, h2, h3, h4⟩ := findFetchersForElement_spec cfg x e
   unfold addCore
   split
@@ -203,8 +203,8 @@ theorem addCore_ok {cfg : Config} {x : Ctx} (inv : Inv cfg x.st) {p : Peer} (hp 
       rw [hst]
       exact htr
 
-theorem addBody_ok {cfg : Config} {x : Ctx} (inv : Inv cfg x.st) {p : Peer} (hp : p ∈ x.st.peers)
-    (req params : Json) (path : Bytes) : HOK cfg x req (addBody cfg x p req params path) := by
+theorem addBody_ok {cfg : Config} {pc : Nat} {x : Ctx} (inv : Inv cfg x.st) {p : Peer} (hp : p ∈ x.st.peers)
+    (req params : Json) (path : Bytes) : HOK cfg x req pc (addBody cfg x p req params path) := by
   unfold addBody
   dsimp only
   split
@@ -222,8 +222,8 @@ theorem addBody_ok {cfg : Config} {x : Ctx} (inv : Inv cfg x.st) {p : Peer} (hp 
         · rfl
         · simp
 
-theorem addElement_ok {cfg : Config} {x : Ctx} (inv : Inv cfg x.st) {p : Peer} (hp : p ∈ x.st.peers)
-    (req : Json) : HOK cfg x req (addElement cfg x p req) := by
+theorem addElement_ok {cfg : Config} {pc : Nat} {x : Ctx} (inv : Inv cfg x.st) {p : Peer} (hp : p ∈ x.st.peers)
+    (req : Json) : HOK cfg x req pc (addElement cfg x p req) := by
   rw [addElement_eq]
   split
   · exact HOK.err inv ..
@@ -236,8 +236,8 @@ theorem addElement_ok {cfg : Config} {x : Ctx} (inv : Inv cfg x.st) {p : Peer} (
 
 /-! ## unfetch -/
 
-theorem unfetchReq_ok {cfg : Config} {x : Ctx} (inv : Inv cfg x.st) (p : Peer) (req : Json) :
-    HOK cfg x req (unfetchReq x p req) := by
+theorem unfetchReq_ok {cfg : Config} {pc : Nat} {x : Ctx} (inv : Inv cfg x.st) (p : Peer) (req : Json) :
+    HOK cfg x req pc (unfetchReq x p req) := by
   unfold unfetchReq
   split
   · next r hr => exact HOK.quiet inv (Quiet.refl x) (getFetchId_err hr)
@@ -249,8 +249,8 @@ theorem unfetchReq_ok {cfg : Config} {x : Ctx} (inv : Inv cfg x.st) (p : Peer) (
 
 /-! ## authenticate -/
 
-theorem authenticateReq_ok {cfg : Config} {x : Ctx} (inv : Inv cfg x.st) {p : Peer} (hp : p ∈ x.st.peers)
-    (req : Json) : HOK cfg x req (authenticateReq cfg x p req) := by
+theorem authenticateReq_ok {cfg : Config} {pc : Nat} {x : Ctx} (inv : Inv cfg x.st) {p : Peer} (hp : p ∈ x.st.peers)
+    (req : Json) : HOK cfg x req pc (authenticateReq cfg x p req) := by
   unfold authenticateReq
   split
   · next r hr => exact HOK.quiet inv (Quiet.refl x) (getCredentials_err hr)
@@ -276,7 +276,7 @@ theorem fetchCore_ok {cfg : Config} {x : Ctx} (inv : Inv cfg x.st) {p : Peer} (h
       nextUid := x.st.nextUid + 1,
       peers := updatePeer x.st.peers p.conn (fun q => { q with fetches := q.fetches ++ [f] }) })
     (hx0out : x0.out = x.out) :
-    HOK cfg x req (offerAllElements cfg x0 { p with fetches := p.fetches ++ [f] } f, successFromRequest req) := by
+    HOK cfg x req p.conn (offerAllElements cfg x0 { p with fetches := p.fetches ++ [f] } f, successFromRequest req) := by
   have hn0 : (x0.st.peers.map (·.conn)).Nodup := by
     rw [hx0st]
     show ((updatePeer x.st.peers p.conn _).map (·.conn)).Nodup
@@ -305,16 +305,25 @@ theorem fetchCore_ok {cfg : Config} {x : Ctx} (inv : Inv cfg x.st) {p : Peer} (h
     intro q _
     simp only [Function.comp, fetchPeer]
   have ft := trans_fetch inv hp huid hok hnew
-  refine ⟨⟨fetchNotifs cfg x.st p f, ?_, ?_⟩, fun _ h => isResp_successFromRequest h, fun _ => rfl⟩
+  refine ⟨⟨fetchNotifs cfg x.st p f, ?_, ?_⟩, fun _ h => isResp_successFromRequest h, ?_⟩
   · have := o2.of_out_eq_left (z := x) hx0out.symm
     rw [hall0] at this
     exact this
   · show StepOK cfg x.st (offerAllElements cfg x0 _ f).st _
     rw [hfinal]
     exact ft.stepOK inv hp huid hnew
+  · intro c' g hg hng
+    refine ⟨rfl, ?_⟩
+    have hg' : HasFetch (fetchState cfg x.st p f) c' g := by
+      have : (offerAllElements cfg x0 { p with fetches := p.fetches ++ [f] } f, successFromRequest req).1.st =
+          fetchState cfg x.st p f := hfinal
+      rw [← this]; exact hg
+    rcases ft.fresh c' g hg' with h | ⟨h, _⟩
+    · exact absurd h hng
+    · exact h
 
 theorem fetchReq_ok {cfg : Config} {x : Ctx} (inv : Inv cfg x.st) {p : Peer} (hp : p ∈ x.st.peers)
-    (req : Json) : HOK cfg x req (fetchReq cfg x p req) := by
+    (req : Json) : HOK cfg x req p.conn (fetchReq cfg x p req) := by
   unfold fetchReq
   split
   · next r hr => exact HOK.quiet inv (Quiet.refl x) (getFetchId_err hr)
@@ -341,14 +350,14 @@ theorem fetchReq_ok {cfg : Config} {x : Ctx} (inv : Inv cfg x.st) {p : Peer} (hp
 
 /-! ## handleMethod, parseJsonRpc -/
 
-theorem hok_ite {cfg : Config} {x : Ctx} {req : Json} {c : Bool} {a b : Ctx × Option Json}
-    (ha : HOK cfg x req a) (hb : HOK cfg x req b) : HOK cfg x req (if c = true then a else b) := by
+theorem hok_ite {cfg : Config} {pc : Nat} {x : Ctx} {req : Json} {c : Bool} {a b : Ctx × Option Json}
+    (ha : HOK cfg x req pc a) (hb : HOK cfg x req pc b) : HOK cfg x req pc (if c = true then a else b) := by
   cases c
   · simpa using hb
   · simpa using ha
 
 theorem handleMethod_ok {cfg : Config} {x : Ctx} (inv : Inv cfg x.st) {p : Peer} (hp : p ∈ x.st.peers)
-    (req : Json) (method : Bytes) : HOK cfg x req (handleMethod cfg x p req method) := by
+    (req : Json) (method : Bytes) : HOK cfg x req p.conn (handleMethod cfg x p req method) := by
   unfold handleMethod
   repeat' with_reducible apply hok_ite
   all_goals first
@@ -367,40 +376,48 @@ theorem handleMethod_ok {cfg : Config} {x : Ctx} (inv : Inv cfg x.st) {p : Peer}
 
 /-- One JSON-RPC object: the output is `resp ++ new ++ old` (newest first) where `resp` is at most
     the one response (never a notification), sent after everything else; the work up to the response
-    satisfies `StepOK`; and when a fetch was installed the response is the success response. -/
+    satisfies `StepOK`; and when a fetch was installed it was installed for the requesting
+    connection and the response is exactly the success response of the request. -/
 structure RpcOK (cfg : Config) (x : Ctx) (c : Nat) (req : Json) (x' : Ctx) : Prop where
   shape : ∃ new resp : List Obs, x'.out = resp ++ new ++ x.out ∧
     StepOK cfg x.st x'.st (notifs new.reverse) ∧
-    (resp = [] ∨ ∃ j b, resp = [Obs.send c j b] ∧ IsResp j ∧
-      ((∃ c' f, HasFetch x'.st c' f ∧ ¬ HasFetch x.st c' f) → some j = successFromRequest req))
+    (resp = [] ∨ ∃ j b, resp = [Obs.send c j b] ∧ IsResp j) ∧
+    (∀ c' f, HasFetch x'.st c' f → ¬ HasFetch x.st c' f →
+      c' = c ∧ ((successFromRequest req = none ∧ resp = []) ∨
+                ∃ j b, successFromRequest req = some j ∧ resp = [Obs.send c j b]))
 
 theorem rpcOK_of_hok {cfg : Config} {x : Ctx} {c : Nat} {req : Json} {r : Ctx × Option Json}
-    (h : HOK cfg x req r) : RpcOK cfg x c req (sendResponse r.1 c r.2).1 := by
+    (h : HOK cfg x req c r) : RpcOK cfg x c req (sendResponse r.1 c r.2).1 := by
   obtain ⟨ns, ⟨new, hnew, hns⟩, hstep⟩ := h.step
   unfold sendResponse
   cases hr : r.2 with
   | none =>
-    refine ⟨new, [], by simpa using hnew, ?_, Or.inl rfl⟩
-    rw [hns]; exact hstep
+    refine ⟨new, [], by simpa using hnew, ?_, Or.inl rfl, ?_⟩
+    · rw [hns]; exact hstep
+    · intro c' f h1 h2
+      obtain ⟨h3, h4⟩ := h.succ c' f h1 h2
+      exact ⟨h4, Or.inl ⟨by rw [← h3, hr], rfl⟩⟩
   | some j =>
     obtain ⟨b, hb⟩ := send_out r.1 c j
-    refine ⟨new, [Obs.send c j b], ?_, ?_, Or.inr ⟨j, b, rfl, h.resp j hr, ?_⟩⟩
+    refine ⟨new, [Obs.send c j b], ?_, ?_, Or.inr ⟨j, b, rfl, h.resp j hr⟩, ?_⟩
     · simp only
       rw [hb, hnew]
       simp
     · simp only
       rw [send_st, hns]; exact hstep
-    · intro hinst
-      simp only [send_st] at hinst
-      rw [← hr]
-      exact h.succ hinst
+    · intro c' f h1 h2
+      simp only [send_st] at h1
+      obtain ⟨h3, h4⟩ := h.succ c' f h1 h2
+      exact ⟨h4, Or.inr ⟨j, b, by rw [← h3, hr], rfl⟩⟩
 
 theorem rpcOK_quiet {cfg : Config} {x x' : Ctx} {c : Nat} {req : Json} (inv : Inv cfg x.st)
     (h : Quiet x x') : RpcOK cfg x c req x' := by
   obtain ⟨new, hnew, hns⟩ := h.emits
-  refine ⟨new, [], by simpa using hnew, ?_, Or.inl rfl⟩
-  rw [hns]
-  exact (h.transN inv).stepOK
+  refine ⟨new, [], by simpa using hnew, ?_, Or.inl rfl, ?_⟩
+  · rw [hns]
+    exact (h.transN inv).stepOK
+  · intro c' f h1 h2
+    exact absurd ((h.transN inv).noNew c' f h1) h2
 
 theorem parseJsonRpc_ok {cfg : Config} {x : Ctx} (inv : Inv cfg x.st) (c : Nat) (req : Json) :
     RpcOK cfg x c req (parseJsonRpc cfg x c req).1 := by
@@ -409,9 +426,12 @@ theorem parseJsonRpc_ok {cfg : Config} {x : Ctx} (inv : Inv cfg x.st) (c : Nat) 
   · exact rpcOK_quiet inv (Quiet.refl x)
   · next p hp =>
     have hpm := (findPeer_some hp).1
+    have hpc : p.conn = c := (findPeer_some hp).2
     split
     · next m _ =>
-      exact rpcOK_of_hok (handleMethod_ok inv hpm req m)
+      have := handleMethod_ok inv hpm req m
+      rw [hpc] at this
+      exact rpcOK_of_hok this
     · exact rpcOK_of_hok (r := (x, _)) (HOK.err inv ..)
     · split
       · exact rpcOK_quiet inv (quiet_routingResponse ..)
